@@ -297,4 +297,48 @@ SPEC = {
                                    "target": "return", "peel": ["bool", ("arg", "bernoulli", 0)], "params": {"res": R}},
         },
     },
+    "ReducerSites": {
+        "uses": ["Trace", "Interpolation", "Smoothing"],
+        "sites": {
+            **{f"{cls}_{nm}": dict(d, file="inferno/observe/reducers/trace.py", cls=cls)
+               for cls, scaled, cond in (("NearestTraceReducer", False, False), ("CumulativeTraceReducer", False, False),
+                                         ("ScaledNearestTraceReducer", True, False), ("ScaledCumulativeTraceReducer", True, False),
+                                         ("ConditionalNearestTraceReducer", True, True), ("ConditionalCumulativeTraceReducer", True, True))
+               for nm, d in (
+                   ("fold", {"method": "fold", "target": "body",
+                             "rename": ({"self.decay": "decay", "self.amplitude": "amplitude", "self.scale": "scale",
+                                         ("partial(lambda o, c: c, c=cond)" if cond else "self.criterion"): "matchfn"} if scaled else
+                                        {"self.decay": "decay", "self.amplitude": "amplitude", "self.target": "target", "self.tolerance": "tolerance",
+                                         "self.data.dtype": "dtype"}),
+                             "ignore_args": (["cond"] if cond else []),
+                             "params": ({"obs": R, "state": "opt real", "decay": R, "amplitude": R, "scale": R, "matchfn": "fnb"} if scaled else
+                                        {"obs": R, "state": "opt real", "decay": R, "amplitude": R, "target": R, "tolerance": "opt real"})}),
+                   ("interpolate", {"method": "interpolate", "target": "body", "rename": {"self.time_constant": "time_constant"},
+                                    "params": {"prev_data": R, "next_data": R, "sample_at": R, "step_time": R, "time_constant": R}}),
+                   ("decay_init", {"method": "__init__", "target": "self.decay", "rename": {"self.dt": "dt", "self.time_constant": "time_constant"},
+                                   "params": {"dt": R, "time_constant": R}}),
+                   ("decay_dt", {"method": "dt", "target": "self.decay", "rename": {"self.dt": "dt", "self.time_constant": "time_constant"},
+                                 "params": {"dt": R, "time_constant": R}}),
+               )},
+            "EventReducer_fold": {"file": "inferno/observe/reducers/general.py", "cls": "EventReducer", "method": "fold", "target": "body",
+                                  "rename": {"self.criterion": "criterion", "self.__initial_value": "initial_value", "self.dt": "dt", "self.data.dtype": "dtype"},
+                                  "params": {"obs": R, "state": "opt real", "criterion": "fnb", "initial_value": R, "dt": R}},
+            "EventReducer_interpolate": {"file": "inferno/observe/reducers/general.py", "cls": "EventReducer", "method": "interpolate",
+                                         "target": "body", "params": {"prev_data": R, "next_data": R, "sample_at": R, "step_time": R}},
+            "PassthroughReducer_fold": {"file": "inferno/observe/reducers/general.py", "cls": "PassthroughReducer", "method": "fold",
+                                        "target": "body", "params": {"obs": R, "state": "opt real"}},
+            "PassthroughReducer_interpolate": {"file": "inferno/observe/reducers/general.py", "cls": "PassthroughReducer", "method": "interpolate",
+                                               "target": "body", "params": {"prev_data": R, "next_data": R, "sample_at": R, "step_time": R}},
+            "EMAReducer_fold": {"file": "inferno/observe/reducers/stats.py", "cls": "EMAReducer", "method": "fold", "target": "body",
+                                "rename": {"self.alpha": "alpha"}, "params": {"obs": R, "state": "opt real", "alpha": R}},
+            "EMAReducer_interpolate": {"file": "inferno/observe/reducers/stats.py", "cls": "EMAReducer", "method": "interpolate",
+                                       "target": "body", "params": {"prev_data": R, "next_data": R, "sample_at": R, "step_time": R}},
+            "CAReducer_fold_first": {"file": "inferno/observe/reducers/stats.py", "cls": "CAReducer", "method": "fold", "target": "return", "nth": 0,
+                                     "rename": {"self.data.dtype": "dtype"}, "params": {"obs": R}},
+            "CAReducer_fold_next": {"file": "inferno/observe/reducers/stats.py", "cls": "CAReducer", "method": "fold", "target": "return", "nth": 1,
+                                    "rename": {"self._count": "count"}, "params": {"obs": R, "state": R, "count": R}},
+            "CAReducer_interpolate": {"file": "inferno/observe/reducers/stats.py", "cls": "CAReducer", "method": "interpolate",
+                                      "target": "body", "params": {"prev_data": R, "next_data": R, "sample_at": R, "step_time": R}},
+        },
+    },
 }
